@@ -151,7 +151,7 @@ pub fn values(prop: &str, data: &[u8]) -> Result<(), String> {
     let mut r = Rd { d: data, p: 0 };
     let sel = r.u8();
     let sel2 = r.u8();
-    let mut i64le = |r: &mut Rd| -> i64 {
+    let i64le = |r: &mut Rd| -> i64 {
         let mut b = [0u8; 8];
         for k in 0..8 {
             b[k] = r.u8();
